@@ -81,7 +81,13 @@ def gen_concat(rng):
     lens = [rng.randint(0 if rng.random() < 0.15 else 1, 5) for _ in range(nparts)]
     total = sum(lens)
     head = gen_stage2(rng, total, grammar)
-    tails = [gen_stage2(rng, n, True) for n in tail]
+    tails = []
+    for n in tail:
+        ix = gen_stage2(rng, n, True)
+        # integer and empty tail selections hit recorded findings of the concatenated indexer: keep them rare
+        if (ix[0] == 'i' or ixgen.np_len(n, ix) == 0) and rng.random() < 0.8:
+            ix = FULL
+        tails.append(ix)
     return dict(kind='concat', lens=lens, tail=tail, head=head, tails=maybe_trunc(rng, tails),
                 wrap=[rng.random() < 0.5 for _ in range(nparts)], arr=[rng.random() < 0.5 for _ in range(16)])
 
